@@ -5,7 +5,7 @@
    goroutines, any lengths) under ANY schedule; [tr] is its ghost trace.                     *)
 From Coq Require Import List Arith ZArith Bool.
 From GT Require Import Base.Conc.
-From GT Require Import WGModel WGSpec WGInv WGProofs WGRefute.
+From GT Require Import WGModel WGSpec WGSpecProofs WGInv WGProofs WGRefute.
 Import ListNotations.
 Local Open Scope Z_scope.
 
@@ -20,6 +20,19 @@ Proof. exact c01_wb. Qed.
 (* it holds even without the side condition *)
 Theorem C01_unconditional : forall progs sched, c01_ok (tr (wg_exec progs sched)) = true.
 Proof. exact c01_all. Qed.
+
+(* what the monitor means, for EVERY trace (also the ones recorded from the real code): if
+   c01_ok accepts a trace then the property's sentence over positions holds of it - for every
+   Wait call (call at position s by thread tid, returning channel x at position r, tid doing
+   only internal steps in between) and every position u >= r whose observation shows x closed
+   there is a position tau, s <= tau <= u, at which the lower bound is <= 0 *)
+Theorem C01_monitor_sound : forall t, c01_ok t = true -> c01_spec t.
+Proof. exact c01_ok_spec. Qed.
+
+(* hence the property in its declarative form for the machine *)
+Theorem C01_declarative : forall progs sched,
+  well_behaved (tr (wg_exec progs sched)) = true -> c01_spec (tr (wg_exec progs sched)).
+Proof. intros progs sched H. apply c01_ok_spec. apply c01_wb. exact H. Qed.
 
 (* the same in state form: a closed channel that some Wait returned has its zero_seen mark *)
 Theorem C01_state_form : forall progs sched w x,
@@ -60,6 +73,8 @@ Proof. exact c01_orig_refuted. Qed.
 
 Print Assumptions C01.
 Print Assumptions C01_unconditional.
+Print Assumptions C01_monitor_sound.
+Print Assumptions C01_declarative.
 Print Assumptions C01_state_form.
 Print Assumptions C01_lb_le_count.
 Print Assumptions C01_sentinel_iff_zero.
